@@ -76,34 +76,11 @@ def run(ctx, eng):
 
     # ---- forgotten streams: lookups and their order (layer 3)
     H = 'connection.H2Connection.'
-    # _get_stream_by_id: forgotten => StreamClosedError, above => NoSuch
-    fi = eng.m.func(H + '_get_stream_by_id')
-    kinds = {}
-    for p in eng.I.run(fi):
-        r = cm.explicit_raise(p)
-        if r is None:
-            continue
-        above = None
-        for e in p.events:
-            if e.kind == 'assume' and e.cond[0] == 'cmp0':
-                s = cm.show0(e.cond)
-                if 'stream_id' in s and 'highest' in s:
-                    above = s
-        kinds.setdefault(tuple(sorted(p.exc['names'])), set()).add(above)
-    ok = ('StreamClosedError',) in kinds and ('NoSuchStreamError',) in kinds
-    if ok:
-        ok = all(s in ('(-self.highest_inbound_stream_id + stream_id > 0)',
-                       '(-self.highest_outbound_stream_id + stream_id > 0)')
-                 for s in kinds[('NoSuchStreamError',)]) and \
-            all(s in ('(self.highest_inbound_stream_id - stream_id >= 0)',
-                      '(self.highest_outbound_stream_id - stream_id >= 0)')
-                for s in kinds[('StreamClosedError',)]) and \
-            len(kinds[('NoSuchStreamError',)]) == 2
-    ctx.ob('ARITH.lookup', fi.qual, 'forgotten vs never-used ids', ok,
-           'NoSuchStreamError iff stream_id > watermark of its direction, '
-           'else StreamClosedError (seen %s)' % {
-               k: sorted(x or '-' for x in v) for k, v in kinds.items()},
-           node=fi.node)
+    # _get_stream_by_id: forgotten => StreamClosedError, above the
+    # watermark of the id's OWN direction => NoSuchStreamError (the rule of
+    # C09, with the direction test seen through inlining)
+    from .c09 import lookup_rule
+    lookup_rule(ctx, eng)
     check_lookup_contracts(ctx, eng)
     # ---- (a) ORD: no connection-level refusal before the classification
     fi = eng.m.func(H + '_receive_headers_frame')
